@@ -43,7 +43,7 @@ COMPONENTS = {
 PROBES_REQUIRED = ["rewrite:" + name for name in ("format-synonym-csv", "comment-rows", "trailing-cells", "marker-case", "format-case",
                                                     "property-name-case", "blanks-around-cells", "reorder-properties",
                                                     "empty-rows", "empty-mark-case")] + [
-    "storage:rows", "storage:csv", "storage:ods", "storage:xlsx", "defect:duplicate-field-name", "defect:format-twice",
+    "cid-path-handed-to-reader-after-rewrite", "storage:rows", "storage:csv", "storage:ods", "storage:xlsx", "defect:duplicate-field-name", "defect:format-twice",
     "defect:check-before-fields", "defect:fixed-length-is-range", "defect:example-rejected-integer", "defect:no-fields-at-all"]
 
 EXTRA_PROPS = {
@@ -418,6 +418,7 @@ def generate(seed, tier):
         the_defect = {"name": name, "row": fault_rng.choice(indices)}
     return {"io": simfs.IoConfig.draw(swarm), "spec": spec, "rewrites": rewrites, "rewrite_seed": swarm.randrange(1 << 30),
             "defect": the_defect, "storage": swarm.choice(["rows", "csv", "ods", "xlsx"]),
+            "via_reader_after_base": swarm.random() < 0.25,
             "ods_features": sorted(swarm.sample(["colruns", "rowruns", "stored", "spans", "trailing-empty-run"], swarm.randint(0, 2)))}
 
 
@@ -430,19 +431,30 @@ def _summary(cid):
     }
 
 
-def _load(fs, rows, storage, features):
-    from cutplace import interface
+def _load(fs, rows, storage, features, via_reader_after=None):
+    from cutplace import interface, validio
 
     if storage == "rows":
         return lib.call(lib.load_cid, rows, "cid")
     path = {"csv": "cid.csv", "ods": "cid.ods", "xlsx": "cid.xlsx"}[storage]
+    if via_reader_after is not None:
+        # the CID is handed to a Reader as a path; a moment ago the same path held the sound base CID and was used
+        _store(fs, path, storage, via_reader_after, features)
+        lib.call(validio.Reader, path, "no-data.csv")
+        _store(fs, path, storage, rows, features)
+        status, value = lib.call(validio.Reader, path, "no-data.csv")
+        return status, (value.cid if status == "ok" else value)
+    _store(fs, path, storage, rows, features)
+    return lib.call(interface.Cid, path)
+
+
+def _store(fs, path, storage, rows, features):
     if storage == "csv":
         fs.store(path, lib.render_delimited(rows, ",", '"', "\n").encode("utf-8"))
     elif storage == "ods":
         fs.store(path, odf.encode([rows], features)[0])
     else:
         fs.store(path, xlsx.encode([xlsx.text_table(rows)]))
-    return lib.call(interface.Cid, path)
 
 
 def execute(scenario):
@@ -476,7 +488,10 @@ def execute(scenario):
         apply_rewrites(rewritten, scenario.get("rewrites", []), core.stream(scenario.get("rewrite_seed", 0), "rewrite"))
         if marked is not None:
             defect_row = next(index for index, row in enumerate(rewritten) if row is marked)
-        status, value = _load(fs, rewritten, storage, features)
+        via_reader = scenario.get("via_reader_after_base") and storage != "rows"
+        if via_reader:
+            result.probe("cid-path-handed-to-reader-after-rewrite")
+        status, value = _load(fs, rewritten, storage, features, base if via_reader else None)
     history.add("client", "load", {"rows": rewritten, "storage": storage,
                                    "outcome": _summary(value) if status == "ok" else lib.error_summary(value)})
     for name in scenario.get("rewrites", []):
@@ -534,6 +549,8 @@ def candidates(scenario):
         return
     for index in range(len(scenario.get("rewrites", []))):
         yield lib.with_value(scenario, ["rewrites"], scenario["rewrites"][:index] + scenario["rewrites"][index + 1:])
+    if scenario.get("via_reader_after_base"):
+        yield lib.with_value(scenario, ["via_reader_after_base"], False)
     if scenario.get("storage") != "rows":
         yield lib.with_value(scenario, ["storage"], "rows")
     for candidate in lib.io_candidates(scenario):
